@@ -132,7 +132,7 @@ def bg_st(draw, inherited=False, **kw):
 
 
 @st.composite
-def feature_st(draw, max_items=4, max_rules=2, min_items=0, **kw):
+def feature_st(draw, max_items=4, max_rules=2, min_items=0, min_rules=0, **kw):
     feat = {"tags": draw(tags_st())}
     bg = draw(bg_st(**kw))
     if bg is not None:
@@ -140,7 +140,7 @@ def feature_st(draw, max_items=4, max_rules=2, min_items=0, **kw):
     has_bg_steps = bool(bg)
     nitems = draw(st.integers(min_items, max_items))
     items = [draw(item_st(inherited=has_bg_steps, **kw)) for _ in range(nitems)]
-    nrules = draw(st.integers(0, max_rules)) if draw(st.integers(0, 2)) == 0 else 0
+    nrules = draw(st.integers(min_rules, max_rules)) if (min_rules or draw(st.integers(0, 2)) == 0) else 0
     for _ in range(nrules):
         rule = {"k": "r", "tags": draw(tags_st())}
         rbg = draw(bg_st(inherited=has_bg_steps, **kw))
@@ -254,7 +254,7 @@ def inflate(draw, feats, dims=None, **kw):
     """Blow up ONE dimension of the drawn features in place; returns the name of the dimension."""
     outcomes = kw.get("outcomes") or OUTCOMES
     skw = {k: v for k, v in kw.items() if k in ("outcomes", "with_async", "with_cleanup", "typed")}
-    fkw = {k: v for k, v in kw.items() if k not in ("max_items", "max_rules", "min_items")}
+    fkw = {k: v for k, v in kw.items() if k not in ("max_items", "max_rules", "min_items", "min_rules")}
     dim = draw(st.sampled_from(dims or BIG_DIMS))
     n = draw(st.integers(10, 13))
     if dim in ("rows", "examples"):
@@ -371,7 +371,8 @@ def program_st(draw, max_features=3, faults=True, cfg=None, peek=True, relog=Fal
         if f == 6:
             # run-time exclusion: a before_feature / before_rule / before_scenario hook calls <element>.skip()
             # (documented); at any other hook position this fault kind does nothing
-            prog["hook_faults"] = [[draw(st.integers(0, 10000)), "skip"]]
+            # ... or an after_scenario hook gives up the rest of its partly executed feature (context.feature.skip())
+            prog["hook_faults"] = [[draw(st.integers(0, 10000)), draw(st.sampled_from(["skip", "skip", "skip_feature"]))]]
         elif f == 0:
             prog["hook_faults"] = [[draw(st.integers(0, 10000)),
                                     draw(st.sampled_from(["Exception", "AssertionError", "AssertionError0", "Exception0"]))]]
